@@ -64,6 +64,31 @@ func histMain(args []string) {
 			pv, _ := project(v)
 			spec := M{"t": "fn", "k": "ext", "ps": []interface{}{}, "variadic": false, "uh": "none", "ch": "none", "res": "const", "ret": pv}
 			ext, _ := makeExtension(spec)
+			if r.Intn(6) == 0 {
+				// a value that is not a function of an accepted shape (one result, or a result and an error)
+				shape := g.pick("noresult", "three", "second_int", "second_iface", "second_string", "nonfunc_int", "nonfunc_nil", "nonfunc_string", "ok2")
+				spec["shape"] = shape
+				switch shape {
+				case "noresult":
+					ext = jsonata.Extension{Func: func() {}}
+				case "three":
+					ext = jsonata.Extension{Func: func() (interface{}, interface{}, error) { return v, nil, nil }}
+				case "second_int":
+					ext = jsonata.Extension{Func: func() (interface{}, int) { return v, 0 }}
+				case "second_iface":
+					ext = jsonata.Extension{Func: func() (interface{}, interface{}) { return v, nil }}
+				case "second_string":
+					ext = jsonata.Extension{Func: func() (interface{}, string) { return v, "" }}
+				case "nonfunc_int":
+					ext = jsonata.Extension{Func: 5}
+				case "nonfunc_nil":
+					ext = jsonata.Extension{Func: nil}
+				case "nonfunc_string":
+					ext = jsonata.Extension{Func: "f"}
+				case "ok2":
+					ext = jsonata.Extension{Func: func() (interface{}, error) { return v, nil }}
+				}
+			}
 			return spec, ext
 		}
 		exprs := map[int]*jsonata.Expr{}
